@@ -7,6 +7,8 @@ C06 lemma library, aggregated:
   `automatonAccepted_pairs`);
 * `GT.Lemmas.RepAutLang`  — the words are the label words of the paths, once per path
   (`accepted_words_start`, `accepted_words_end`, `accepted_eq_enumerate`);
+* `GT.Lemmas.RepAutTotal` — when exceptions are raised (`accSpec_total_start`, `accSpec_keyError`,
+  `accSpec_total_end`);
 * `GT.Lemmas.RepAutFree`  — `free_automaton` spells the freely reduced words, each once
   (`free_language`, `free_pathWords_mem`, `freelyReducedElements_spec`).
 Below: concrete instances showing that the hypotheses of the main theorems are satisfiable.
@@ -16,8 +18,9 @@ import GT.Lemmas.RepAutSpec
 import GT.Lemmas.RepAutPairs
 import GT.Lemmas.RepAutLang
 import GT.Lemmas.RepAutFree
+import GT.Lemmas.RepAutTotal
 
-namespace GT
+namespace GT.RepW
 namespace RepAutExamples
 open Rep
 
@@ -84,6 +87,24 @@ example : startLang a0 true 2 0 = ["", "a", "aa", "ab"] := by decide
 example : endLang a0 false 2 1 = ["aa"] := by decide
 example : endLang a0 true 3 0 = ["", "ab", "aab"] := by decide
 
+/-! `accSpec_total_start` / `accSpec_total_end` -/
+example : LabelsDefined r0 a0 {} := by
+  intro v e hve ln hln
+  have hok : ∀ l ∈ ["a", "b"], (r0.edgeElt {} l).isOk = true := by decide
+  have hl : ln.1 ∈ ["a", "b"] := by
+    simp only [a0, List.mem_cons, Prod.mk.injEq, List.not_mem_nil, or_false] at hve
+    rcases hve with ⟨rfl, rfl⟩ | ⟨rfl, rfl⟩
+    · simp only [List.mem_cons, List.not_mem_nil, or_false] at hln
+      subst hln
+      decide
+    · simp only [List.mem_cons, List.not_mem_nil, or_false] at hln
+      rcases hln with rfl | rfl <;> decide
+  have := hok ln.1 hl
+  cases h : r0.edgeElt {} ln.1 with
+  | error err => rw [h] at this; cases this
+  | ok E => exact ⟨E, rfl⟩
+example : (1 : Nat) ∈ a0.vertices := by decide
+
 /-! `free_language` / `freelyReducedElements_spec` -/
 example : FreeOK ["a", "b"] := ⟨by decide, by decide, by decide⟩
 example : FreeOK r1.asymGens := ⟨by decide, by decide, by decide⟩
@@ -100,4 +121,4 @@ example : ((r1.freelyReducedElements 2 true true).toOption.map fun r => r.words)
     some ["", "a", "aa", "A", "AA"] := by decide
 
 end RepAutExamples
-end GT
+end GT.RepW
